@@ -157,6 +157,9 @@ def arith_shape(fn):
 
 
 CONV_TABLES = {}   # name -> list of (int key, lean val)
+ENUM_TABLES = {}   # table name -> (enum class name, width)
+ROT_TABLES = []    # names of tabulated non-enum decode-side converters on float fields (to_turn)
+ENUM_CLASSES = {}  # enum class name -> class
 
 
 def conv_name(fn):
@@ -215,6 +218,12 @@ def translate_conv(fn, field_name, cls_name, width, signed, d_type, direction):
         # table is used: in-range inputs are exactly the raw values)
         name = tabulate(fn, raw_domain(width, signed), d_type is float and not is_enum,
                         'w%d%s' % (width, 's' if signed else 'u'))
+        if is_enum:
+            ecls = fn if inspect.isclass(fn) else fn.__self__
+            ENUM_TABLES[name] = (ecls.__name__, width)
+            ENUM_CLASSES[ecls.__name__] = ecls
+        elif name not in ROT_TABLES:
+            ROT_TABLES.append(name)
     else:
         # encode-side non-enum converter (from_turn): integer inputs in a generous window
         name = tabulate(fn, range(-1000, 1001), d_type is float, 'enc')
@@ -398,7 +407,7 @@ def main():
                 continue
             out.append((name, t))
             # leaves are classes of the messages module
-            for leaf in set(__import__('re').findall(r'\.leaf "([A-Za-z0-9_]+)"', t)):
+            for leaf in sorted(set(__import__('re').findall(r'\.leaf "([A-Za-z0-9_]+)"', t))):
                 lc = getattr(M, leaf, None)
                 if lc is None:
                     untrans('%s.%s refers to unknown class %s' % (name, attrname, leaf))
@@ -485,6 +494,27 @@ def main():
     L.append('def convTables : List (String × List (Int × Val)) := [')
     L.append(',\n'.join('  (%s, CT_%s)' % (lean_str(n), n) for n in CONV_TABLES))
     L.append(']')
+    L.append('')
+    L.append('/-- tabulated enum converters: table name ↦ (enum class, width of the raw domain) -/')
+    L.append('def enumTables : List (String × String × Nat) := [')
+    L.append(',\n'.join('  (%s, %s, %d)' % (lean_str(n), lean_str(c), w) for n, (c, w) in ENUM_TABLES.items()))
+    L.append(']')
+    L.append('')
+    L.append('/-- member values of the enum classes used by converters -/')
+    L.append('def enumMembers : List (String × List Int) := [')
+    rows = []
+    for n, c in ENUM_CLASSES.items():
+        try:
+            vals = [int(m.value) for m in c]
+        except Exception as e:  # noqa
+            untrans('enum %s: %s' % (n, e))
+            vals = []
+        rows.append('  (%s, %s)' % (lean_str(n), lean_list([lean_int(v) for v in vals])))
+    L.append(',\n'.join(rows))
+    L.append(']')
+    L.append('')
+    L.append('/-- tabulated non-enum decode-side converters (rate of turn) -/')
+    L.append('def rotTables : List String := %s' % lean_list([lean_str(n) for n in ROT_TABLES]))
     L.append('')
     L.append('def env : Env := { classes := classes, msgClass := msgClass, decodeTrees := decodeTrees,')
     L.append('                   createTrees := createTrees, convTables := convTables }')
@@ -600,7 +630,7 @@ def main():
                 # all leaves of the dispatcher
                 for n, t in dec_trees:
                     if n == cls.__name__:
-                        for leaf in set(__import__('re').findall(r'\.leaf "([A-Za-z0-9_]+)"', t)):
+                        for leaf in sorted(set(__import__('re').findall(r'\.leaf "([A-Za-z0-9_]+)"', t))):
                             names |= {f.name for f in attr.fields(getattr(M, leaf))}
             if 'radio' in names and i != 0:
                 radio_types.append(i)
